@@ -2672,7 +2672,10 @@ def record_iteration(requester, prob, case_name):
     if opts['record_inputs'] and (inputs._names or len(discrete_inputs) > 0):
         data['input'] = model._retrieve_data_of_kind(filt, 'input', 'nonlinear', local)
 
-    if opts['record_outputs'] and (outputs._names or len(discrete_outputs) > 0):
+    # design variables, objectives and constraints have their own record_* options, so they are
+    # recorded (as outputs) even when 'record_outputs' is False.
+    if (opts['record_outputs'] or filt['output']) and \
+            (outputs._names or len(discrete_outputs) > 0):
         data['output'] = model._retrieve_data_of_kind(filt, 'output', 'nonlinear', local)
 
     if opts['record_residuals'] and residuals._names:
